@@ -597,3 +597,29 @@ func (m *Model) GC() {
 		}
 	}
 }
+
+// ---- universe and alphabet shared by the crash harness (C10) and its uninstrumented conformance driver
+
+func CrashUniverse() *DAG {
+	d := &DAG{Name: "c10"}
+	b1 := d.Blob("B1", MTConfig, "{}")
+	b2 := d.Blob("B2", MTLayer, "layer-2")
+	m1 := d.Manifest("M1", b1, []int{b2}, ManifestOpt{Subject: -1})
+	d.Manifest("M2", b1, nil, ManifestOpt{Subject: m1, ArtifactType: "application/vnd.test.ref"})
+	d.Blob("B3", MTLayer, strings.Repeat("x", 100))
+	return d
+}
+
+func CrashAlphabet(d *DAG) []Op {
+	var ops []Op
+	for i := range d.Nodes {
+		ops = append(ops, Op{Kind: "push", Node: i})
+	}
+	ops = append(ops,
+		Op{Kind: "tag", Node: 2, Ref: "a"}, Op{Kind: "tag", Node: 3, Ref: "a"}, Op{Kind: "tag", Node: 2, Ref: "b"},
+		Op{Kind: "tag", Node: 0, Ref: "c"}, Op{Kind: "tag", Node: 3, Ref: "b", Ann: true}, Op{Kind: "tag", Node: 4, Ref: "c"},
+		Op{Kind: "untag", Ref: "a"}, Op{Kind: "untag", Ref: "b"},
+		Op{Kind: "delete", Node: 0}, Op{Kind: "delete", Node: 2}, Op{Kind: "delete", Node: 3}, Op{Kind: "delete", Node: 1},
+		Op{Kind: "gc"}, Op{Kind: "save"})
+	return ops
+}
